@@ -161,6 +161,29 @@ fn step(resolved: bool, regs: &[Option<Elem>], op: &str) -> (String, Option<Elem
                         Ok(TokenAtOffset::Between(l, r)) => (format!("between {} {}", show_token(&l), show_token(&r)), Some(NodeOrToken::Token(r))),
                     }
                 }
+                // the TokenAtOffset helper: left / right bias, the iterator drained by 4 calls of next, len() before each call
+                "taoh" => {
+                    let off = TextSize::from(arg(2));
+                    let r = catch(|| if let Some(r) = rn { r.token_at_offset(off).map(|t| t.syntax().clone()) } else { n.token_at_offset(off) });
+                    match r {
+                        Err(c) => (format!("PANIC:{c}"), None),
+                        Ok(x) => {
+                            let opt = |t: Option<cstree::syntax::SyntaxToken<K>>| t.map(|t| show_token(&t)).unwrap_or_else(|| "-".into());
+                            let reg = x.clone().right_biased().map(NodeOrToken::Token);
+                            let mut it = x.clone();
+                            let mut items = Vec::new();
+                            let mut sizes = Vec::new();
+                            for _ in 0..4 {
+                                let (lo, hi) = it.size_hint();
+                                sizes.push(if hi == Some(lo) { it.len().to_string() } else { format!("{lo}-{hi:?}") });
+                                if let Some(t) = it.next() {
+                                    items.push(show_token(&t));
+                                }
+                            }
+                            (format!("L={} R={} it=[{}] sz={}", opt(x.clone().left_biased()), opt(x.right_biased()), items.join(","), sizes.join(",")), reg)
+                        }
+                    }
+                }
                 "cov" => {
                     let range = TextRange::new(TextSize::from(arg(2)), TextSize::from(arg(3)));
                     let r = catch(|| if let Some(r) = rn { own(re(r.covering_element(range))) } else { own(n.covering_element(range)) });
